@@ -443,6 +443,7 @@ func runSpecCase(c Case) interface{} {
 	_ = json.Unmarshal(doc.Raw(), &rawDoc)
 	out["raw"] = rawDoc
 	before, _ := json.Marshal(doc.Spec())
+	rawBefore := append([]byte{}, doc.Raw()...)
 	runs := []interface{}{}
 	for _, cont := range []bool{false, true} {
 		runs = append(runs, tagRun(oneSpecRun(doc, cont, strict), "same"))
@@ -465,6 +466,7 @@ func runSpecCase(c Case) interface{} {
 	}
 	after, _ := json.Marshal(doc.Spec())
 	out["specSame"] = string(before) == string(after)
+	out["rawSame"] = string(rawBefore) == string(doc.Raw())
 	out["runs"] = runs
 	return out
 }
